@@ -325,9 +325,10 @@ fn gen_lattice(inp: &str, outp: &str) {
         let base: Vec<Vec<i64>> = cells.iter().map(|c| vec![2 * (c % 3), 2 * (c / 3)]).collect();
         let mut orders: Vec<Vec<Vec<i64>>> = vec![base.clone()];
         // six-point multisets (3003 of them) are run in their canonical order only
-        for rot in [1usize, (n + 1) / 2] {
-            if n >= 6 {
-                break;
+        // and five-point ones in the canonical order and one rotation
+        for (ri, rot) in [1usize, (n + 1) / 2].iter().copied().enumerate() {
+            if n >= 6 || (n == 5 && ri == 0) {
+                continue;
             }
             let mut o = base.clone();
             o.rotate_left(rot % n);
@@ -336,7 +337,9 @@ fn gen_lattice(inp: &str, outp: &str) {
             }
         }
         let ks: Vec<usize> = (0..=n + 1).collect();
-        let rs = all_rspecs(n);
+        // every boundary radius; for n >= 5 only every other in-between radius
+        let rs: Vec<RSpec> = all_rspecs(n).into_iter()
+            .filter(|r| match r { RSpec::Mid(j) => n < 5 || j % 2 == 0, _ => true }).collect();
         for o in &orders {
             let data: Vec<P> = o.iter().map(|p| to_f(p, 2)).collect();
             for qi in &queries {
@@ -378,6 +381,10 @@ fn gen_edge(outp: &str) {
     sets.push((vec![vec![0, 0], vec![0, 0], vec![1, 0], vec![2, 2]], vec![vec![0, 0], vec![1, 1], vec![2, 2]]));
     sets.push((vec![vec![3, 1], vec![0, 0], vec![1, 0], vec![1, 0], vec![1, 0]], vec![vec![1, 0], vec![0, 1], vec![3, 1]]));
     sets.push((vec![vec![0], vec![4], vec![4], vec![0], vec![2], vec![2]], vec![vec![2], vec![1], vec![4], vec![7]]));
+    // collinear points on the diagonal: every distance is a multiple of sqrt 2, so that the
+    // triangle inequality holds with equality and its floating-point evaluation may not
+    sets.push((vec![vec![4, 4], vec![5, 5], vec![8, 8], vec![0, 0], vec![7, 7], vec![3, 3], vec![0, 0]],
+               vec![vec![0, 0], vec![1, 1], vec![8, 8]]));
     // two points only
     sets.push((vec![vec![0, 0], vec![3, 4]], vec![vec![0, 0], vec![3, 4], vec![1, 1]]));
     for (di, qs) in &sets {
@@ -447,7 +454,7 @@ fn gen_random(outp: &str) {
     let mut out = Out::create(outp);
     let mut rng = rng(0x0c04_0001);
     let big = thorough();
-    let groups = if big { 700 } else { 110 };
+    let groups = if big { 700 } else { 160 };
     let mut run = 0i64;
     for g in 0..groups {
         let n = pick_n(&mut rng, big);
@@ -715,6 +722,16 @@ fn est_event<D: Distance<P, f64>>(dist: D, c: &EstCase) -> Value {
                         Err(_) => json!({"q": to_i(q, 2), "status": "panic"}),
                     });
                 }
+                // the same rows in one call of predict
+                let qm = mat(c.qs);
+                ev["batch"] = match guard(|| model.predict(&qm)) {
+                    Ok(Ok(v)) => match v.iter().map(|&x| int_exact(x)).collect::<Option<Vec<i64>>>() {
+                        Some(o) => json!({"status": "ok", "out": o}),
+                        None => json!({"status": "garbled"}),
+                    },
+                    Ok(Err(_)) => json!({"status": "err"}),
+                    Err(_) => json!({"status": "panic"}),
+                };
             }
             Ok(Err(_)) => ev["fit"] = json!("err"),
             Err(_) => ev["fit"] = json!("panic"),
@@ -743,6 +760,16 @@ fn est_event<D: Distance<P, f64>>(dist: D, c: &EstCase) -> Value {
                         Err(_) => json!({"q": to_i(q, 2), "status": "panic"}),
                     });
                 }
+                let qm = mat(c.qs);
+                ev["batch"] = match guard(|| model.predict(&qm)) {
+                    Ok(Ok(v)) => {
+                        let qb = Q::new(10);
+                        let o = qb.v(&v);
+                        if qb.ok() { json!({"status": "ok", "out": o}) } else { json!({"status": "garbled"}) }
+                    }
+                    Ok(Err(_)) => json!({"status": "err"}),
+                    Err(_) => json!({"status": "panic"}),
+                };
             }
             Ok(Err(_)) => ev["fit"] = json!("err"),
             Err(_) => ev["fit"] = json!("panic"),
@@ -755,7 +782,7 @@ fn est_event<D: Distance<P, f64>>(dist: D, c: &EstCase) -> Value {
 fn gen_est(outp: &str) {
     let mut out = Out::create(outp);
     let mut rng = rng(0x0c04_0003);
-    let groups = if thorough() { 160 } else { 36 };
+    let groups = if thorough() { 160 } else { 28 };
     let mut run = 0i64;
     for g in 0..groups {
         // training set: n <= 12 rows on a small lattice (ties, duplicates); g = 0, 1 are the
@@ -826,8 +853,10 @@ fn gen_tree(inp: &str, outp: &str) {
         let data: Vec<P> = di.iter().map(|p| to_f(p, 1)).collect();
         let n = data.len();
         let dims = di[0].len();
-        let lo = di.iter().flatten().min().copied().unwrap_or(0).min(0) - 1;
-        let hi = line["side"].as_i64().unwrap_or(di.iter().flatten().max().copied().unwrap_or(0) + 1);
+        // queries: the lattice 0..side-1 plus a margin of one (no margin for 2-D data in the quick tier)
+        let margin = if dims >= 2 && !thorough() { 0 } else { 1 };
+        let lo = -margin;
+        let hi = line["side"].as_i64().unwrap_or(di.iter().flatten().max().copied().unwrap_or(0) + 1) - 1 + margin;
         let mut ev = json!({"run": run, "ev": "Tree", "D": di, "u": 1, "n": n, "expect": line["tree"],
             "ident": data.iter().all(|x| *x == data[0])});
         let built = guard(|| CoverTree::new(data.clone(), Distances::manhattan()));
@@ -843,14 +872,22 @@ fn gen_tree(inp: &str, outp: &str) {
         ev["build"] = json!("ok");
         let dump = serde_json::to_value(&tree).unwrap_or(Value::Null);
         ev["tree"] = node_json(&dump["root"]);
-        // queries: the lattice and a margin of one around it
         let mut qs: Vec<Vec<i64>> = vec![vec![]];
         for _ in 0..dims {
             qs = qs.iter().flat_map(|q| (lo..=hi).map(move |x| { let mut v = q.clone(); v.push(x); v })).collect();
         }
         let maxr = dims as i64 * (hi - lo);
         let mut qv = Vec::new();
-        for qi in &qs {
+        // large scopes (thorough tier): the structure of every tree is compared, its answers for
+        // three of the queries (rotating with the line number)
+        let nqs = qs.len();
+        let pick = |j: usize| -> bool {
+            !(thorough() && n >= 4) || (0..3).any(|t| (run as usize * 7 + t * (nqs / 3 + 1)) % nqs == j)
+        };
+        for (qj, qi) in qs.iter().enumerate() {
+            if !pick(qj) {
+                continue;
+            }
             let q = to_f(qi, 1);
             let ent = |h: &Hit| json!({"i": h.0, "key": Metric::Man.key(1, dims, h.1), "pt": to_i(h.2, 1)});
             let mut finds = Vec::new();
